@@ -203,6 +203,10 @@ class Program:
                     else:
                         self.by_key["%s::%s" % (st, last)] = fn
                         self.by_key.setdefault("<%s>::%s" % (st, last), fn)
+                        # also under the module path printed at call sites (disambiguates same-named types in different modules)
+                        mod = name.split("::<impl at")[0]
+                        if mod and mod != name:
+                            self.by_key["%s::%s::%s" % (mod, st, last)] = fn
             else:
                 self.by_key.setdefault(last, fn)
                 self.by_key[name] = fn
